@@ -754,11 +754,12 @@ Proof.
   - (* atx *) apply contract_pure. intros st2 rf2 np Heq. inversion Heq; subst. finish_some ltac:(lia).
   - (* setex *) destruct (last_is_paragraph st) as [[before t]|].
     + apply contract_pure. intros st2 rf2 np Heq. inversion Heq; subst. finish_some ltac:(lia).
-    + destruct (bmatch_rules C (named C [RThematic; RList]) (s_src st) (s_cursor st)) as [[rk2 m2]|] eqn:Eb.
+    + set (sub := if Nat.leb (b_max_nested C) (s_depth st) then [RThematic] else [RThematic; RList]) in *.
+      destruct (bmatch_rules C (named C sub) (s_src st) (s_cursor st)) as [[rk2 m2]|] eqn:Eb.
       * assert (Hp : s_cursor st <= length (s_src st)) by lia.
         destruct (bmatch_rules_spec _ _ _ _ _ (named_solid _) Hp Eb) as (r & Hin & Hmm & A & B & Cc).
         assert (Hmok : mok rk2 m2 st).
-        { apply (mok_of_bmatch (named C [RThematic; RList]) st rk2 m2 r (named_solid _) Hp Hin Hmm A B Cc).
+        { apply (mok_of_bmatch (named C sub) st rk2 m2 r (named_solid _) Hp Hin Hmm A B Cc).
           right; left. exact (named_in _ _ _ Hin). }
         split; [apply Hn; exact Hmok|]. intros st2 rf2 np Heq. exact (Hs _ _ _ _ _ _ _ Hmok Heq).
       * apply contract_pure. intros st2 rf2 np Heq. inversion Heq; subst. split; [reflexivity|]. split; [intros p Hp; discriminate|reflexivity].
